@@ -16,6 +16,8 @@ import (
 	"io"
 	"path/filepath"
 	"runtime"
+
+	"github.com/TheCacophonyProject/go-cptv/cptvframe"
 	"sync"
 	"sync/atomic"
 	"testing"
@@ -47,20 +49,20 @@ type c16Log struct {
 }
 
 type c16Req struct {
-	Kind                 string
-	CallClock, RetClock  int64
-	ProcAtCall           int64
-	ConnProcAtCall       int64
-	ConnFirstAtCall      int64
-	RecvAtRet            int64
-	ConnFirstAtRet       int64
-	Phase                string
-	GotFrame             bool
-	ErrText              string
-	Value                uint16
-	Uniform              bool
-	FrameCount           int
-	AllZero              bool
+	Kind                string
+	CallClock, RetClock int64
+	ProcAtCall          int64
+	ConnProcAtCall      int64
+	ConnFirstAtCall     int64
+	RecvAtRet           int64
+	ConnFirstAtRet      int64
+	Phase               string
+	GotFrame            bool
+	ErrText             string
+	Value               uint16
+	Uniform             bool
+	FrameCount          int
+	AllZero             bool
 }
 
 func TestVerif_C16(t *testing.T) {
@@ -93,7 +95,40 @@ func TestVerif_C16(t *testing.T) {
 			var wg sync.WaitGroup
 			svc := &service{}
 			handshake := make(chan chan struct{}, 1)
-			doSnapshot := func(kind string, lastFrame int) {
+			// a returned image is an exact COPY: it must never change after it has been handed out.
+			// Each requester keeps its previous image and re-checks it after its next request.
+			type held struct {
+				f     *cptvframe.Frame
+				value uint16
+				count int
+			}
+			var heldMu sync.Mutex
+			heldBy := map[int64]*held{}
+			recheck := func(gid int64, f *cptvframe.Frame, uniform bool, value uint16) {
+				heldMu.Lock()
+				prev := heldBy[gid]
+				if f != nil && uniform {
+					heldBy[gid] = &held{f: f, value: value, count: f.Status.FrameCount}
+				}
+				heldMu.Unlock()
+				if prev == nil {
+					return
+				}
+				for y := range prev.f.Pix {
+					for x := range prev.f.Pix[y] {
+						if prev.f.Pix[y][x] != prev.value {
+							c.Violation("snapshot-changed-after-return", "", fmt.Sprintf("an image returned earlier (uniform value %d, frame %d) changed afterwards: pixel (%d,%d) is now %d - the reply aliases a buffer that is still written", prev.value, prev.count, y, x, prev.f.Pix[y][x]))
+							return
+						}
+					}
+				}
+				if prev.f.Status.FrameCount != prev.count {
+					c.Violation("snapshot-changed-after-return", "", fmt.Sprintf("the frame counter of an image returned earlier changed from %d to %d", prev.count, prev.f.Status.FrameCount))
+					return
+				}
+				c.Count("held_snapshots_rechecked", 1)
+			}
+			doSnapshotG := func(gid int64, kind string, lastFrame int) {
 				r := c16Req{Kind: kind}
 				r.CallClock = atomic.AddInt64(&lg.clock, 1)
 				r.ProcAtCall = atomic.LoadInt64(&lg.lastProc)
@@ -126,6 +161,7 @@ func TestVerif_C16(t *testing.T) {
 							}
 						}
 						r.FrameCount = f.Status.FrameCount
+						recheck(gid, f, r.Uniform && !r.AllZero, r.Value)
 					}
 				case "TakeTestRecording":
 					if derr := svc.TakeTestRecording(); derr != nil {
@@ -146,6 +182,7 @@ func TestVerif_C16(t *testing.T) {
 				reqs = append(reqs, r)
 				reqMu.Unlock()
 			}
+			doSnapshot := func(kind string, lastFrame int) { doSnapshotG(-1, kind, lastFrame) }
 			for g := 0; g < nReq; g++ {
 				wg.Add(1)
 				grng := vNewRNG(rng.U64(), uint64(g))
@@ -172,7 +209,7 @@ func TestVerif_C16(t *testing.T) {
 							if grng.Chance(30) {
 								lf = last
 							}
-							doSnapshot("TakeSnapshot", lf)
+							doSnapshotG(int64(g), "TakeSnapshot", lf)
 						}
 						switch grng.Intn(4) {
 						case 0:
